@@ -345,7 +345,7 @@ UNITS["enc"] = dict(
              encodes="as above", bounds="4 requests, windows 0..=3"),
         dict(name="data_scheme::group_secret::verif_proofs::latest_is_max_for_every_insertion_order", prop="C36", timeout=900,
              encodes="find_latest via SecretBundle::insert, SecretBundleState::latest", bounds="1..3 secrets, all u64 timestamps, distinct ids, all 6 insertion orders, every HashMap iteration order"),
-        dict(name="data_scheme::group_secret::verif_proofs::latest_after_merge_from_secrets_and_remove", prop="C36", timeout=900,
+        dict(name="data_scheme::group_secret::verif_proofs::latest_after_merge_from_secrets_and_remove", prop="C36", tier="thorough", timeout=1800,
              encodes="SecretBundle::{extend, from_secrets, remove}, find_latest", bounds="3 secrets, all u64 timestamps, both merge orders"),
         dict(name="data_scheme::group_secret::verif_proofs::generate_is_newer", prop="C36", timeout=900,
              encodes="SecretBundle::generate", bounds="bundle of 0..2 secrets with timestamps < u64::MAX, every wall-clock second"),
@@ -412,6 +412,43 @@ PROPS["C38"] = dict(
     level_text=("Bounded model checking of the real KeyRegistry add/lookup/remove_expired paths with the wall clock as a symbolic variable read independently at add and at lookup time: a bundle is accepted "
                 "exactly when lifetime and signature are valid now, and a bundle returned for a member is valid when it is returned."),
     level_note="Trusted: Kani/CBMC; clock and signature verdict symbolic; HashMap contract model.",
+)
+
+# ------------------------------------------------------------------------------------------------
+# unit "tasks": S2 include! of p2panda/src/processor/tasks.rs over the tokio contract model
+# ------------------------------------------------------------------------------------------------
+UNITS["tasks"] = dict(
+    name="tasks",
+    stage=[("repo",), ("crate", "harness/tasks"), ("lock_none",), SYM, COLLECTIONS,
+           ("mount", "p2panda/src/processor/tasks.rs", "src/staged/tasks.rs",
+            [(r"^use std::collections::HashMap;$", "use crate::verif_models::HashMap;", 1), INNER_DOCS, STRIP_TESTS])],
+    repo_paths=["src/staged/"],
+    native_note="unit replay: the same staged unit and the tokio contract model compiled natively and run with the solver's schedule",
+    mem_gb=30,
+    functions=[("p2panda/src/processor/tasks.rs", "Task::ready", r"pub async fn ready\(&self\)"),
+               ("p2panda/src/processor/tasks.rs", "Task::mark_as_done", r"^    async fn mark_as_done\(&self, result: T\)"),
+               ("p2panda/src/processor/tasks.rs", "TaskTracker::track", r"pub async fn track\(&self"),
+               ("p2panda/src/processor/tasks.rs", "TaskTracker::mark_as_done", r"pub async fn mark_as_done\(&self, id: ID")],
+    harnesses=[
+        dict(name="unit::proofs::ready_never_misses_done", prop="C14", timeout=300, encodes="Task::ready vs Task::mark_as_done",
+             bounds="pipeline thread runs mark_as_done to completion at any of the submitter's synchronisation operations (lock poll, guard drop, notified() creation, Notified poll) or afterwards"),
+        dict(name="unit::proofs::two_waiters_both_return", prop="C14", timeout=300, encodes="two Task::ready futures vs Task::mark_as_done", bounds="as above, two submitters stepped alternately"),
+        dict(name="unit::proofs::tracked_submission_completes", prop="C14", tier="thorough", timeout=1500, encodes="TaskTracker::track, Task::ready vs TaskTracker::mark_as_done", bounds="as above, through the tracker"),
+        dict(name="unit::proofs::resubmission_after_completion_completes", prop="C14", timeout=300, encodes="TaskTracker::{track, mark_as_done}, Task::ready", bounds="submit, duplicate submit, completion, re-submit, completion (sequential)"),
+    ],
+)
+PROPS["C14"] = dict(
+    units=["tasks"],
+    trusted_base=["Kani 0.68 / CBMC 6.11 / cadical",
+                  "model: tokio::sync::{Mutex,RwLock,Notify} replaced by a contract model (Notified sees every notify_waiters() issued after its creation; mutual exclusion); every operation on a primitive is a context-switch point",
+                  "model: std HashMap -> inline-array contract model"],
+    assumptions=["the pipeline thread marks an operation as done only after it received it, i.e. after the submitter's track() completed (the order in Pipeline::process)",
+                 "switches happen at synchronisation operations only (complete for data that is only touched under these primitives)"],
+    bounds="two threads (one or two submitters, one pipeline thread); the pipeline thread's mark_as_done runs atomically at a solver-chosen switch point",
+    outside="real tokio internals; the mpsc channel and the pipeline's processor layers between track() and mark_as_done()",
+    level_text=("Bounded model checking of the real Task::ready / Task::mark_as_done / TaskTracker code over a contract model of tokio's primitives with the pipeline thread scheduled at EVERY "
+                "synchronisation point of the submitter — the quantifier over interleavings that the suite's 50 ms sleep never varies: the submission returns, with its own result, for one and two submitters."),
+    level_note="Trusted: Kani/CBMC; tokio contract model (sequentialised schedules at synchronisation operations).",
 )
 
 PROPS["C18"].update(
